@@ -571,6 +571,8 @@ func gen(g *core.G) {
 	for i := 0; i < trees/6; i++ {
 		g.Emit("@forked" + strings.TrimPrefix(randTree(g.Rng, lookups/2).String(), "tree"))
 	}
+	// implementation-only: definitions that refer to each other (xref.go)
+	genXref(g)
 	// smart path alone
 	for i := 0; i < 150*g.Scale; i++ {
 		mod := ""
